@@ -4,14 +4,17 @@ import Whv.Model.Gov
 Driver family `gov` (C15).  One case per line (fields separated by one space):
 
 `inj <id> cc=<n> ce=<hex> gsi=<n> ts=<n> msgs=<m;m;..|-> res=ok|err|errnonnil|panic code=<n> msg=<hex|-> sent=<canon|canon..|->
- dig=<hex,..|-> kk=<hex,..|-> p1=<hex> p2=<hex>`
+ dig=<hex,..|-> kk=<hex,..|-> ps=<label:hex,label:hex,..> [alt=<label> altres= altcode= altmsg= altsent= altdig=]`
 
 * `cc`, `ce`: the service's `governanceChainId` / `governanceEmitterAddress`; `gsi`, `ts`: `CurrentSetIndex`, `Timestamp`;
 * a message is `seq:nonce:tc:kind:args` with kind/args one of `none:-`, `fee:<s>`, `tf:<s>,<s>`, `gs:<pub>/<name>,..|-`, `cu:<s>`,
   `rc:<s>,<n>,<s>`, `bu:<s>,<s>`, `ds:<n>,<n.n.n|->`, `cl:<n>`, `ra:<s>`; every Go string `<s>` is the hex of its bytes (`-` = empty);
 * `res`/`code`/`msg`: what the real `InjectGovernanceVAA` returned (gRPC status code and message), `sent`: every VAA it pushed on
   `injectC`, canon = `ver,gs,sigs,ts,nonce,ec,tc,emhex,seq,cl,plhex`; `dig`: the digests it returned; `kk`: Keccak(Keccak(body)) recomputed
-  by the harness from the pushed VAAs; `p1`/`p2`: fingerprints of the complete result on two service instances with different histories.
+  by the harness from the pushed VAAs; `ps`: fingerprints of the complete result (status, message, every field of every VAA, digests) of the
+  same request on the reference instance and on instances with different ambient node state (guardian-set state nil / empty / index 0 /
+  equal / higher, different stores, channel fill levels and histories; some built by the production constructor and called over the admin
+  unix socket); `alt*`: the complete result of the first instance that differs from the reference.
 -/
 namespace Whv.Driver.GovFam
 open Whv Whv.Driver Whv.Gov
@@ -132,6 +135,30 @@ def specSent (cfg : Cfg) (req : Req) : List Msg → List Vaa → Option String
       some s!"{lossyClause req.currentSetIndex m.payload v.body.payload} accepted request ({showPayload m.payload}, current_set_index={req.currentSetIndex}) is not what the contract parser recovers from payload {hexOrDash (v.body.payload.take 80)} ({v.body.payload.length} bytes)"
     else specSent cfg req ms vs
 
+/-- `ps` = `label:fingerprint,...`; the label of the first instance whose complete result differs from the reference's. -/
+def stateDependent (ps : String) : Option String :=
+  let fps := (ps.splitOn ",").map fun e => match e.splitOn ":" with | [l, f] => (l, f) | _ => ("?", e)
+  match fps with
+  | (_, f0) :: others => (others.find? fun x => x.2 != f0).map (·.1)
+  | [] => none
+
+/-- Verdict text for an instance whose result differs from the reference instance's. -/
+def altVerdict (lbl : String) (msgs : List Msg) (sent : List Vaa) (rest : List String) : String :=
+  let altres := (kv rest "altres").getD "?"
+  let altsent := ((kv rest "altsent") >>= parseSent).getD []
+  if altres = "panic" then
+    let cur : String := match msgs[altsent.length]? with | some m => kindName m.payload | none => "request"
+    s!"request-panic-{cur} InjectGovernanceVAA panicked ({showStr (((kvHex rest "altmsg")).getD [])}) on the node instance {lbl} (message {altsent.length})"
+  else
+    let firstDiff := (List.zip sent altsent).find? fun (a, b) => a != b
+    let detail := match firstDiff with
+      | some (a, b) =>
+        let what := (if a.gsIndex != b.gsIndex then " guardian_set_index" else "") ++ (if a.body.payload != b.body.payload then " payload" else "") ++
+                    (if a.body != b.body && a.body.payload == b.body.payload then " body" else "")
+        s!"VAA differs in{what}: reference {showVaa a} / {lbl} {showVaa b}"
+      | none => s!"reference injected {sent.length} VAAs, {lbl} injected {altsent.length}, result {altres} code={(kv rest "altcode").getD "?"} msg=\"{showStr ((kvHex rest "altmsg").getD [])}\" digests {(kv rest "altdig").getD "-"} vs {(kv rest "dig").getD "-"}"
+    s!"result-depends-on-node-state the same request gives a different result on the node instance {lbl} (same governance configuration, different ambient state): {detail}"
+
 structure St where
   n : Nat := 0
   accepted : Nat := 0
@@ -170,8 +197,8 @@ def step (st : St) (line : String) : St × List String :=
           (st, [s!"spec {id} missing-vaa request of {msgs.length} messages accepted but {sent.length} VAAs injected"])
         else if res = "ok" && (kv rest "dig" != kv rest "kk") then
           (st, [s!"spec {id} digest-not-body-hash returned digests are not Keccak(Keccak(signing body)) of the injected VAAs"])
-        else if kv rest "p1" != kv rest "p2" then
-          (st, [s!"spec {id} not-pure the same request gave different results on two service instances"])
+        else if let some lbl := stateDependent ((kv rest "ps").getD "-") then
+          (st, [s!"spec {id} {altVerdict lbl msgs sent rest}"])
         else
           -- 2. the tie: model vs implementation, full observable result
           let (msent, mres) := inject cfg req
